@@ -388,6 +388,7 @@ Ltac unfold_step :=
 
 Ltac brk_goal :=
   repeat match goal with
+  | |- context [match ?n with Some _ => _ | None => _ end] => is_var n; destruct n
   | |- context [if ?b then _ else _] =>
     match type of b with bool => destruct b eqn:? end
   end.
@@ -477,6 +478,7 @@ Qed.
 
 Ltac brk_hyp H :=
   repeat match type of H with
+  | context [match ?n with Some _ => _ | None => _ end] => is_var n; destruct n
   | context [if ?b then _ else _] =>
     match type of b with bool => destruct b eqn:? end
   end.
@@ -1896,41 +1898,75 @@ Proof.
       destruct (N.ltb (N.of_nat (length bs)) (LL racc)); [discriminate H|]. exact H.
 Qed.
 
-(* ---- the look-ahead byte matters only at the end of a multi-line annotation ---- *)
+(* ---- the look-ahead byte matters at the end of a multi-line annotation and, in length mode,
+   at a slash after the array (there it decides between errEOS and the annotation) ---- *)
+Lemma end_top_la_none lc idx s c la R :
+  end_top lc idx s c la = R -> R <> SEos -> end_top lc idx s c None = R.
+Proof.
+  unfold end_top. destruct (is_newline c); [intros <- _; reflexivity|].
+  destruct (ch c 47); [|intros <- _; reflexivity].
+  destruct la as [x|]; [|intros <- _; reflexivity].
+  destruct (lc && negb (ch x 47) && negb (ch x 42))%bool; [intros <- H; congruence|intros <- _; reflexivity].
+Qed.
+
+Lemma end_value_la_none lc data idx s c la R :
+  end_value lc data idx s c la = R -> R <> SEos -> end_value lc data idx s c None = R.
+Proof.
+  unfold end_value. destruct (s_stack s) as [|[t b] rest]; [apply end_top_la_none|].
+  destruct t; try (intros <- _; reflexivity).
+  destruct (validate_value data idx (found LiteralEnd s)) as [r|s2]; [intros <- _; reflexivity|].
+  destruct rest as [|[t2 b2] rest2]; [apply end_top_la_none|intros <- _; reflexivity].
+Qed.
+
+Lemma state0_la_none lc data idx s c la R :
+  state0 lc data idx s c la = R -> R <> SEos -> state0 lc data idx s c None = R.
+Proof.
+  unfold state0. destruct (ch c 46); [intros <- _; reflexivity|].
+  destruct (ch c 101 || ch c 69)%bool; [intros <- _; reflexivity|]. apply end_value_la_none.
+Qed.
+
 Lemma step1_la_none lc data idx s c la R :
-  step1 lc data idx s c la = R ->
+  step1 lc data idx s c la = R -> R <> SEos ->
   (forall s1, R = SOk s1 -> s_step s1 <> StMultiLineAnnotationEnd) ->
   step1 lc data idx s c None = R.
 Proof.
-  unfold step1. destruct (s_step s); try (intros <- _; reflexivity).
-  - destruct (is_newline c); [intros <- _; reflexivity|].
-    destruct (is_blank c); [intros <- _; reflexivity|].
-    unfold multi_line_annotation_text. destruct la as [d|]; [|intros <- _; reflexivity].
-    destruct (ch c 42 && ch d 47)%bool; [|rewrite andb_false_r; intros <- _; reflexivity].
-    intros <- H. exfalso. eapply H; reflexivity.
-  - unfold multi_line_annotation_text. destruct la as [d|]; [|intros <- _; reflexivity].
-    destruct (ch c 42 && ch d 47)%bool; [|rewrite andb_false_r; intros <- _; reflexivity].
-    intros <- H. exfalso. eapply H; reflexivity.
+  unfold step1. destruct (s_step s); try (intros <- _ _; reflexivity).
+  - intros H Hne _. apply (end_value_la_none _ _ _ _ _ _ _ H Hne).
+  - intros H Hne _. apply (end_top_la_none _ _ _ _ _ _ H Hne).
+  - destruct (is_digit c); [intros <- _ _; reflexivity|].
+    intros H Hne _. apply (state0_la_none _ _ _ _ _ _ _ H Hne).
+  - intros H Hne _. apply (state0_la_none _ _ _ _ _ _ _ H Hne).
+  - destruct (is_digit c); [intros <- _ _; reflexivity|].
+    destruct (ch c 101 || ch c 69)%bool; [intros <- _ _; reflexivity|].
+    intros H Hne _. apply (end_value_la_none _ _ _ _ _ _ _ H Hne).
+  - destruct (is_newline c); [intros <- _ _; reflexivity|].
+    destruct (is_blank c); [intros <- _ _; reflexivity|].
+    unfold multi_line_annotation_text. destruct la as [d|]; [|intros <- _ _; reflexivity].
+    destruct (ch c 42 && ch d 47)%bool; [|rewrite andb_false_r; intros <- _ _; reflexivity].
+    intros <- _ H. exfalso. eapply H; reflexivity.
+  - unfold multi_line_annotation_text. destruct la as [d|]; [|intros <- _ _; reflexivity].
+    destruct (ch c 42 && ch d 47)%bool; [|rewrite andb_false_r; intros <- _ _; reflexivity].
+    intros <- _ H. exfalso. eapply H; reflexivity.
 Qed.
 
 Lemma dispatch_la_none lc data idx c la : forall f s R,
-  dispatch f lc data idx s c la = R ->
+  dispatch f lc data idx s c la = R -> R <> SEos ->
   (forall s1, R = SOk s1 -> s_step s1 <> StMultiLineAnnotationEnd) ->
   dispatch f lc data idx s c None = R.
 Proof.
   induction f as [|f IH]; intros s R; cbn [dispatch].
-  - destruct (step1 lc data idx s c la) as [s1|code pos| | |s'] eqn:E; intros <- H.
-    + rewrite (step1_la_none _ _ _ _ _ _ _ E); [reflexivity|]. intros s2 X. inversion X; subst. apply H. reflexivity.
-    + rewrite (step1_la_none _ _ _ _ _ _ _ E); [reflexivity|discriminate].
-    + rewrite (step1_la_none _ _ _ _ _ _ _ E); [reflexivity|discriminate].
-    + rewrite (step1_la_none _ _ _ _ _ _ _ E); [reflexivity|discriminate].
-    + rewrite (step1_la_none _ _ _ _ _ _ _ E); [reflexivity|discriminate].
-  - destruct (step1 lc data idx s c la) as [s1|code pos| | |s'] eqn:E; intros HR H.
-    + subst R. rewrite (step1_la_none _ _ _ _ _ _ _ E); [reflexivity|]. intros s2 X. inversion X; subst. apply H. reflexivity.
-    + subst R. rewrite (step1_la_none _ _ _ _ _ _ _ E); [reflexivity|discriminate].
-    + subst R. rewrite (step1_la_none _ _ _ _ _ _ _ E); [reflexivity|discriminate].
-    + subst R. rewrite (step1_la_none _ _ _ _ _ _ _ E); [reflexivity|discriminate].
-    + rewrite (step1_la_none _ _ _ _ _ _ _ E); [|discriminate]. apply IH; assumption.
+  - destruct (step1 lc data idx s c la) as [s1|code pos| | |s'] eqn:E; intros <- Hne H.
+    + rewrite (step1_la_none _ _ _ _ _ _ _ E); [reflexivity|discriminate|]. intros s2 X. inversion X; subst. apply H. reflexivity.
+    + rewrite (step1_la_none _ _ _ _ _ _ _ E); [reflexivity|discriminate|discriminate].
+    + congruence.
+    + rewrite (step1_la_none _ _ _ _ _ _ _ E); [reflexivity|discriminate|discriminate].
+    + rewrite (step1_la_none _ _ _ _ _ _ _ E); [reflexivity|discriminate|discriminate].
+  - destruct (step1 lc data idx s c la) as [s1|code pos| | |s'] eqn:E; intros HR Hne H.
+    + subst R. rewrite (step1_la_none _ _ _ _ _ _ _ E); [reflexivity|discriminate|]. intros s2 X. inversion X; subst. apply H. reflexivity.
+    + subst R. rewrite (step1_la_none _ _ _ _ _ _ _ E); [reflexivity|discriminate|discriminate].
+    + congruence.
+    + subst R. rewrite (step1_la_none _ _ _ _ _ _ _ E); [reflexivity|discriminate|discriminate].
+    + rewrite (step1_la_none _ _ _ _ _ _ _ E); [|discriminate|discriminate]. apply IH; assumption.
 Qed.
 
 Lemma runl_la_none lc data : forall bs s idx la racc,
@@ -1947,6 +1983,7 @@ Proof.
     cbn [runl]. unfold r_out, r_sc. cbn [fst snd]. cbn_sc. intros _ Hm.
     unfold step in *. rewrite (dispatch_la_none _ _ _ _ _ _ _ _ E).
     + rewrite Ep. reflexivity.
+    + discriminate.
     + intros s2 X. inversion X; subst. exact Hm.
   - destruct (step lc data idx s c (Some d)) as [s1|code pos| | |s']; try reflexivity.
     destruct (process_finds idx (s_stack s1) (s_finds s1) racc) as [[stk' racc'] ok].
@@ -2460,7 +2497,7 @@ Proof.
     destruct (validate_value d i s') as [r|s2];
     [destruct r; try contradiction; try exact I
     |let k := fresh "k" in destruct Hvs as [k ->]] end.
-  all: cbn_sc.
+  all: cbn_sc; cbn [andb].
   all: brk_goal.
   all: try exact I; try reflexivity.
 Qed.
@@ -2502,46 +2539,47 @@ Proof.
     rewrite Hs in A. exact A.
 Qed.
 
-(* a look-ahead byte other than '/' is as good as none *)
-Lemma step1_la_noslash lc data idx s c d : ch d 47 = false ->
-  step1 lc data idx s c (Some d) = step1 lc data idx s c None.
+(* outside length mode a look-ahead byte other than '/' is as good as none *)
+Lemma step1_la_noslash data idx s c d : ch d 47 = false ->
+  step1 false data idx s c (Some d) = step1 false data idx s c None.
 Proof.
-  intros H. unfold step1, multi_line_annotation_text. rewrite H, !andb_false_r. reflexivity.
+  intros H. unfold step1, state0, end_value, end_top, multi_line_annotation_text.
+  cbn [andb]. rewrite H, !andb_false_r. reflexivity.
 Qed.
 
-Lemma dispatch_la_noslash lc data idx c d : ch d 47 = false -> forall f s,
-  dispatch f lc data idx s c (Some d) = dispatch f lc data idx s c None.
+Lemma dispatch_la_noslash data idx c d : ch d 47 = false -> forall f s,
+  dispatch f false data idx s c (Some d) = dispatch f false data idx s c None.
 Proof.
-  intros H. induction f as [|f IH]; intros s; cbn [dispatch]; rewrite (step1_la_noslash _ _ _ _ _ _ H).
+  intros H. induction f as [|f IH]; intros s; cbn [dispatch]; rewrite (step1_la_noslash _ _ _ _ _ H).
   - reflexivity.
-  - destruct (step1 lc data idx s c None); try reflexivity. apply IH.
+  - destruct (step1 false data idx s c None); try reflexivity. apply IH.
 Qed.
 
-Lemma runl_la_noslash lc data d : ch d 47 = false -> forall bs s idx racc,
-  runl lc data s idx bs (Some d) racc = runl lc data s idx bs None racc.
+Lemma runl_la_noslash data d : ch d 47 = false -> forall bs s idx racc,
+  runl false data s idx bs (Some d) racc = runl false data s idx bs None racc.
 Proof.
   intros H. induction bs as [|c r IH]; intros s idx racc; cbn [runl]; [reflexivity|].
   destruct r as [|d' r'].
-  - unfold step. rewrite (dispatch_la_noslash _ _ _ _ _ H). reflexivity.
-  - destruct (step lc data idx s c (Some d')) as [s1|code pos| | |s']; try reflexivity.
+  - unfold step. rewrite (dispatch_la_noslash _ _ _ _ H). reflexivity.
+  - destruct (step false data idx s c (Some d')) as [s1|code pos| | |s']; try reflexivity.
     destruct (process_finds idx (s_stack s1) (s_finds s1) racc) as [[stk' racc'] ok].
     destruct ok; [|reflexivity]. apply IH.
 Qed.
 
 (* the run over bs ++ [a; '/'] is the run over bs, then two more bytes *)
-Lemma run_snoc2 lc bs a : ch a 47 = false ->
-  run lc (bs ++ [a; x2f]) sc0 0%N (bs ++ [a; x2f]) [] =
-  let r := run lc bs sc0 0%N bs [] in
+Lemma run_snoc2 bs a : ch a 47 = false ->
+  run false (bs ++ [a; x2f]) sc0 0%N (bs ++ [a; x2f]) [] =
+  let r := run false bs sc0 0%N bs [] in
   match r_out r with
-  | Done => runl lc (bs ++ [a; x2f]) (r_sc r) (r_idx r) [a; x2f] None (r_evs r)
+  | Done => runl false (bs ++ [a; x2f]) (r_sc r) (r_idx r) [a; x2f] None (r_evs r)
   | _ => r
   end.
 Proof.
   intros Ha. rewrite run_runl, runl_app. cbv zeta.
-  rewrite (runl_la_noslash _ _ _ Ha).
+  rewrite (runl_la_noslash _ _ Ha).
   assert (Hf : firstn (length bs) (bs ++ [a; x2f]) = bs).
   { rewrite firstn_app, Nat.sub_diag, firstn_all. cbn [firstn]. apply app_nil_r. }
-  pose proof (runl_data lc (bs ++ [a; x2f]) (length bs)) as R.
+  pose proof (runl_data false (bs ++ [a; x2f]) (length bs)) as R.
   specialize (R ltac:(rewrite app_length; lia) bs sc0 0%N None [] ltac:(cbn; lia)).
   rewrite Hf in R. rewrite <- R, <- run_runl. reflexivity.
 Qed.
@@ -2581,7 +2619,7 @@ Proof.
   destruct (two_more (bs ++ [a; x2f]) (r_idx r) (r_sc r) a (r_evs r)
               (inv_finds _ _ _ HI) (inv_c _ _ _ HI) H Hq Ht Ha) as [racc' [s' [Hrun Hstep]]].
   assert (Hsl : ch a 47 = false) by (destruct Ha as [->|[-> _]]; reflexivity).
-  rewrite scan_cases. cbv zeta. rewrite (run_snoc2 false bs a Hsl). cbv zeta. fold r.
+  rewrite scan_cases. cbv zeta. rewrite (run_snoc2 bs a Hsl). cbv zeta. fold r.
   rewrite Eo, Hrun. unfold r_out, r_sc, r_idx, r_evs. cbn [fst snd]. unfold etail. rewrite Hstep.
   cbn [snd]. f_equal. unfold r_idx in HE. lia.
 Qed.
@@ -2629,10 +2667,32 @@ Example enum_scan_opener_side_conditions :
   snd (scan false ([x5b; x5d; x2f; x2f] ++ [x20; x2f])) = Eos /\
   snd (scan false ([x5b; x5d; x2f; x2f] ++ [x0a; x2f])) = Err code_unexpected_eof 5%N /\
   (* the consumers: Check refuses "[1] /" and "[1]/", and so does Len (in length-computing mode
-     '/' is tried as an annotation before the text after the array is given up) *)
+     a '/' with nothing after it is tried as an annotation) *)
   enum_check [x5b; x31; x5d; x20; x2f] = VErr code_unexpected_eof 4%N /\
   enum_len [x5b; x31; x5d; x20; x2f] = (VErr code_unexpected_eof 4%N, 0%N) /\
   enum_len [x5b; x31; x5d; x2f] = (VErr code_unexpected_eof 3%N, 0%N) /\
-  enum_len [x5b; x31; x5d; x20; x2f; x78] = (VErr code_invalid_character 5%N, 0%N) /\
+  (* fix a0479cf: in "[1] /x" the slash begins neither // nor /*: Len stops before it *)
+  enum_len [x5b; x31; x5d; x20; x2f; x78] = (VOk, 3%N) /\
   enum_len [x5b; x31; x5d; x20; x78] = (VOk, 3%N).
+Proof. vm_compute. repeat split; reflexivity. Qed.
+
+(* the fixes a0479cf (length mode: a slash after the array that begins neither // nor /* is the
+   first byte after the rule) and 7bb5f56 (numbers of one kind are duplicates by value) *)
+Example enum_slash_and_number_key_examples :
+  (* "[1, 2]" LF "/cats": Len 6; the events end with the NewLine at 6 *)
+  enum_len [x5b; x31; x2c; x20; x32; x5d; x0a; x2f; x63; x61; x74; x73] = (VOk, 6%N) /\
+  enum_len (firstn 6 [x5b; x31; x2c; x20; x32; x5d; x0a; x2f; x63; x61; x74; x73]) = (VOk, 6%N) /\
+  (* "[1]/x": Len 3; but a slash at the very end is still the unfinished opener *)
+  enum_len [x5b; x31; x5d; x2f; x78] = (VOk, 3%N) /\
+  enum_len [x5b; x31; x5d; x20; x2f] = (VErr code_unexpected_eof 4%N, 0%N) /\
+  (* "[1] //" and "[1] /**/" are annotations as before *)
+  enum_len [x5b; x31; x5d; x20; x2f; x2f] = (VOk, 6%N) /\
+  enum_len [x5b; x31; x5d; x20; x2f; x2a; x2a; x2f] = (VOk, 8%N) /\
+  (* Check mode is not affected: "[1] /x" is refused at the x *)
+  enum_check [x5b; x31; x5d; x20; x2f; x78] = VErr code_invalid_character 5%N /\
+  (* "[1.0,1.00]" and "[0,-0]" are duplicates, "[2,2.0]" (an integer and a float) are not *)
+  enum_check [x5b; x31; x2e; x30; x2c; x31; x2e; x30; x30; x5d] = VErr code_duplication_in_enum 5%N /\
+  enum_check [x5b; x30; x2c; x2d; x30; x5d] = VErr code_duplication_in_enum 3%N /\
+  enum_check [x5b; x32; x2c; x32; x2e; x30; x5d] = VOk /\
+  fst (enum_len [x5b; x31; x2e; x30; x2c; x31; x2e; x30; x30; x5d]) = VErr code_duplication_in_enum 5%N.
 Proof. vm_compute. repeat split; reflexivity. Qed.
